@@ -233,7 +233,7 @@ class C06(Prop):
             own = {r: sorted({x["stream"] for x in rows[r] if x["stream"] != -1 and x["cat"] in KC}) for r in req}
             if not req or any(not own[r] for r in req):
                 return {"skip": True}
-            obs = {"prop": "C06", "err": "", "thr": case["thr"], "ranks": []}
+            obs = {"prop": "C06", "err": "", "thr": case["thr"], "ranks": [], "statsErr": ""}
             rr = random.Random(case["subseed"])
             allstreams = sorted({s for r in req for s in own[r]})
             try:
@@ -248,12 +248,27 @@ class C06(Prop):
                         arg = None
                     df, _ = ta.get_idle_time_breakdown(ranks=list(req), streams=None if arg is None else list(arg), visualize=False,
                                                        consecutive_kernel_delay=case["thr"])
+                    # beyond the listed property: descriptive statistics of the idle intervals per stream and category (second return value)
+                    stats_by_rank: Dict[int, List[Dict[str, Any]]] = {r: [] for r in req}
+                    try:
+                        _, st = ta.get_idle_time_breakdown(ranks=list(req), streams=None if arg is None else list(arg), visualize=False,
+                                                           consecutive_kernel_delay=case["thr"], show_idle_interval_stats=True)
+                        if st is not None:
+                            for cat_, row in st.iterrows():
+                                cnt = hta.ival(row["count"])
+                                rec = {"stream": hta.ival(row["stream"]), "cat": str(cat_), "count": cnt, "min": 0, "max": 0, "total": 0}
+                                if cnt > 0:
+                                    rec.update(min=hta.oval(row["min"]), max=hta.oval(row["max"]), total=hta.scaled(row["mean"] * cnt, 1))
+                                if int(row["rank"]) in stats_by_rank:
+                                    stats_by_rank[int(row["rank"])].append(rec)
+                    except Exception as ex:
+                        obs["statsErr"] = hta.exc_str(ex)
                     for r in req:
                         sub = df[df["rank"].eq(r)]
                         out = [{"stream": hta.ival(t[0]), "cat": str(t[1]), "idle": hta.ival(t[2]), "ratio": hta.scaled(t[3], 100) if t[3] == t[3] else 0}
                                for t in sub[["stream", "idle_category", "idle_time", "idle_time_ratio"]].itertuples(index=False)]
                         expect = own[r] if not arg else [s for s in arg if s in own[r]]
-                        obs["ranks"].append({"rank": r, "file": file_entries(case, r), "rows": rows[r], "streams": expect, "out": out, "call": mode})
+                        obs["ranks"].append({"rank": r, "file": file_entries(case, r), "rows": rows[r], "streams": expect, "out": out, "call": mode, "stats": stats_by_rank[r]})
             except Exception as ex:
                 obs["err"] = hta.exc_str(ex)
             return obs
